@@ -502,11 +502,32 @@ func (r *Result) addItems(p map[int]bool) {
 }
 
 func (r *Result) absorb(sub Result) {
+	switch Variant {
+	case VariantNoInPlaceAnnotations:
+		return
+	case VariantLeakyAnnotations:
+		r.addProps(sub.Props)
+		r.addItems(sub.Items)
+		return
+	}
 	if sub.Valid {
 		r.addProps(sub.Props)
 		r.addItems(sub.Items)
 	}
 }
+
+// Variant selects a deliberately WRONG evaluator. The variants are used only to classify
+// cases: a case whose verdict differs between the specification and a wrong variant is one
+// whose verdict depends on annotation flow (non-trivial for C07). Never used as an oracle.
+var Variant = VariantSpec
+
+const (
+	VariantSpec = iota
+	// in-place applicators contribute no annotations (unevaluated* behave like additional*/items)
+	VariantNoInPlaceAnnotations
+	// annotations of failed subschemas and of "not" leak to the parent
+	VariantLeakyAnnotations
+)
 
 // Validate evaluates the root schema. An error means the model cannot decide (a dangling
 // reference was met during evaluation).
@@ -730,7 +751,8 @@ func (m *Model) Eval(n *Node, inst *jv.V, scope []*Node) (Result, error) {
 		}
 		if !ok {
 			fail()
-		} else {
+		}
+		if ok || Variant == VariantLeakyAnnotations {
 			for _, rr := range rs {
 				res.absorb(rr)
 			}
@@ -744,6 +766,9 @@ func (m *Model) Eval(n *Node, inst *jv.V, scope []*Node) (Result, error) {
 		if rr.Valid {
 			fail()
 		}
+		if Variant == VariantLeakyAnnotations {
+			res.absorb(rr)
+		}
 	}
 	if x := s.Get("if"); isSchema(x) {
 		ri, err := subV(x, inst)
@@ -752,8 +777,10 @@ func (m *Model) Eval(n *Node, inst *jv.V, scope []*Node) (Result, error) {
 		}
 		branch := "else"
 		if ri.Valid {
-			res.absorb(ri)
 			branch = "then"
+		}
+		if ri.Valid || Variant == VariantLeakyAnnotations {
+			res.absorb(ri)
 		}
 		if b := s.Get(branch); isSchema(b) {
 			rb, err := subV(b, inst)
@@ -1057,7 +1084,7 @@ func (m *Model) Eval(n *Node, inst *jv.V, scope []*Node) (Result, error) {
 		}
 	}
 
-	if !res.Valid {
+	if !res.Valid && Variant != VariantLeakyAnnotations {
 		return Result{Valid: false}, nil
 	}
 	return res, nil
